@@ -408,7 +408,9 @@ int filter_fix_linedirs (struct filter *chain)
 		}
 
 		fputs (buf, stdout);
-		lineno++;
+		/* fgets delivers a line longer than buf in pieces; only the last piece ends it */
+		if (buf[0] != '\0' && buf[strlen (buf) - 1] == '\n')
+			lineno++;
 	}
 	fflush (stdout);
 	if (ferror (stdout))
